@@ -174,9 +174,15 @@ package car
 //@   ensures open_error_propagates [C02]: nerr != nil ==> err == nerr && result0 == nil
 
 //@ func (*selectiveCarTraverser).traverseBlocks
-//@   trusted
 //@   note walks every dag with the traverser's own link system (whose loader accounts for offsets); the traversal engine is a dependency
-//@   ensures any [C15]: true
+//@   check every_dag_is_walked [C15]: err == nil ==> rangeindex == len(sct.sc.dags)
+//@   let parsed, perr := call[selector.ParseSelector#0]
+//@   let nd, lerr := call[LinkSystem.Load#0]
+//@   call[selector.ParseSelector#0] assert the_dags_own_selector [C15]: ref(arg0) == ref(carDag.Selector)
+//@   call[Progress.WalkAdv#0] assert visits_a_link_once_when_asked_to [C15]: arg0.Cfg.LinkVisitOnlyOnce == sct.sc.opts.TraverseLinksOnlyOnce
+//@   call[LinkSystem.Load#0] assert through_the_traversers_accounting_link_system [C15]: ref(arg0) == ref(&sct.lsys)
+//@   call[Progress.WalkAdv#0] assert from_the_loaded_root_with_the_parsed_selector [C15]: ref(arg1) == ref(nd) && ref(arg2) == ref(parsed)
+//@   loop[0] step every_dag_is_loaded_and_walked [C15]: executed("LinkSystem.Load#0") && executed("Progress.WalkAdv#0")
 
 //@ func WithErrorOnEmptyRoots
 //@   closure[0]
